@@ -13,8 +13,10 @@ Failure modes (classifier keys):
   open.closed-solution-changed  adding the open subjects changed the REGION of the closed solution
   open.tree-vs-paths            polytree execution returned different open paths than paths execution
 Geometric keys (the first five) are refined by predicates on the failing input:
-  ...+open-horz-spike / ...+open-self-touch   the open polylines touch themselves (a vertex within 3 units of a segment of
-                                it is not an end of): allowed by the hypothesis, but reported under its own key
+  open.horz-spike               any of the five on an input whose open subject has two consecutive horizontal segments of
+                                opposite direction (a horizontal 180-degree spike)
+  ...+open-self-touch           the open polylines touch themselves otherwise (a vertex within 3 units of a segment it is
+                                not an end of): allowed by the hypothesis, but reported under its own key
   ...@beyond-2^53               some coordinate is >= 2^53 (not representable in binary64) and the failure persists with
                                 tolerances widened by the binary64 resolution
   open.cut-inexact@beyond-2^53  some coordinate is >= 2^53 and the failure disappears with the widened tolerances"""
@@ -43,7 +45,7 @@ META = dict(
 CT = {1: 'Intersection', 2: 'Union', 3: 'Difference', 4: 'Xor'}
 FR = {0: 'EvenOdd', 1: 'NonZero', 2: 'Positive', 3: 'Negative'}
 ALL_COMBOS = [(ct, fr) for ct in CT for fr in FR]
-PRIORITY = ['execute-returned-false', 'crash', 'open.cut-inexact', 'open.vertex-off-subject', 'open.segment-off-subject', 'open.piece-extra',
+PRIORITY = ['execute-returned-false', 'crash', 'open.horz-spike', 'open.cut-inexact', 'open.vertex-off-subject', 'open.segment-off-subject', 'open.piece-extra',
             'open.piece-missing', 'open.length', 'open.tree-vs-paths', 'open.closed-solution-changed']
 
 
@@ -107,9 +109,7 @@ def relaxed_tols(case):
 def input_suffix(case, oself):
     """classifier suffix for inputs that are in general position as required by the check but whose open polylines touch
     themselves (not excluded by the hypothesis, reported separately)"""
-    if oself:
-        return ''
-    return '+open-horz-spike' if openpaths.horz_spike(case['O']) else '+open-self-touch'
+    return '' if oself else '+open-self-touch'
 
 
 def open_line(tols, c, sols):
@@ -186,6 +186,7 @@ def evaluate(ctx, exes, oracle, cases, combos_of=None, count=True):
         if sfx:
             stats['self_touch'] += 1
         big = beyond53(c)
+        hspike = openpaths.horz_spike(c['O'])
         reports = iter(parts[1:])
         for r in per_case[ci]:
             base = dict(S=c['S'], C=c['C'], O=c['O'], ct=r['ct'], fr=r['fr'], pc=r['pc'], rs=r['rs'], build=r['b'], regime=c.get('regime', '?'))
@@ -241,8 +242,12 @@ def evaluate(ctx, exes, oracle, cases, combos_of=None, count=True):
                         ctx.count('closed_paths_differ_but_region_equal')
             for k, w, x in found:
                 f = dict(key=k, ci=ci, what=w, replay=dict(base, **x))
-                if big and k.split('+')[0] in GEO:
-                    recheck.append(f)
+                if k.split('+')[0] in GEO:
+                    if hspike:
+                        f['key'] = 'open.horz-spike'      # all geometric modes of this input class under one key
+                        f['what'] += '  [the open subject has two consecutive horizontal segments of opposite direction]'
+                    elif big:
+                        recheck.append(f)
                 fails_out.append(f)
     # classification of geometric failures beyond 2^53: explained by the binary64 resolution of the cut points?
     if recheck:
